@@ -1347,6 +1347,13 @@ def declare_rules(ck):
             "chart's fields), bound to the tokens the chart's parser parses and pushed through the constructor the parser calls, give back "
             "every field they were computed from (e.g. Circle: d_L = -a, d_R = d_L + 2*pi/b against a = -d_L, b = 2*pi/(d_R - d_L)); a "
             "violation comes with a numeric counterexample (input class: a Circle with a reversed parameter domain)", 9)
+    ck.rule("E1.deferred-roles",
+            "a value a parser callback hands to a task helper of the reader (MeshNodeLinker::meshpart_link_to_chart(part, chart)) arrives in the "
+            "role it was read in: the argument that carries attribute K (name= of <MeshPart> -> the mesh part, chart= -> the chart) is followed "
+            "through the helper's parameter, the container component the helper stores it in and the method that takes the tasks out again, to "
+            "the typed look-up that consumes it (MeshAtlas::find_mesh_chart -> a chart, MeshNode::find_mesh_part -> a mesh part); the kind of "
+            "object looked up is the kind the attribute names and not the kind another argument of the same call names (input class: a mesh "
+            "part linked to a chart with a different name - the crossed pair is rejected or links the wrong objects)", 3)
     ck.rule("E7.callee-precondition",
             "a value parsed from the file reaches a constructor only in the range the constructor asserts: every XASSERT of the callee that "
             "compares one of its parameters with a literal is implied by the rejections that dominate the call in the parser callback "
@@ -1470,6 +1477,7 @@ def run(tier):
     rule_sibling_forwarding(ck, W, pcs, facts)
     rule_attr_formula_roundtrip(ck, W, pcs, facts)
     rule_callee_precondition(ck, W, facts)
+    rule_deferred_roles(ck, W, pcs, facts)
     rule_parse_sign(ck, W, facts)
     rule_attr_value_used(ck, W, pcs, facts)
     rule_carrier_transfer(ck, W, facts)
@@ -4228,6 +4236,27 @@ def int_kind(t):
     return None
 
 
+def arith_leaves(g, e):
+    """leaves of an integer expression built with + - * and casts that keep the signedness (a cast to the other signedness ends the walk:
+    what is below it is a conversion site of its own)"""
+    out, todo = [], [e]
+    while todo:
+        x = todo.pop()
+        if not isinstance(x, dict):
+            continue
+        if x.get("k") == "Ref" and "_init" in x:
+            out.append(x)
+        elif x.get("k") == "Bin" and x.get("op") in ("+", "-", "*"):
+            todo += [x.get("lhs"), x.get("rhs")]
+        elif x.get("k") == "Cast" and x.get("e") is not None:
+            ka, kb = int_kind(x.get("to") if isinstance(x.get("to"), str) else g.ntype(x)), int_kind(g.ntype(x["e"]))
+            if ka is not None and ka == kb:
+                todo.append(x["e"])
+        else:
+            out.append(x)
+    return out
+
+
 def rule_parsed_conversion(ck, W, facts):
     rule = "E2.parsed-conversion"
     cfs_all = class_functions(facts)
@@ -4254,10 +4283,18 @@ def rule_parsed_conversion(ck, W, facts):
                 if g.cfg is None:
                     continue
                 for c in g.nodes():
-                    if c.get("k") == "Cast" and c.get("ck") in ("functional", "static", "cstyle") and c.get("e") is not None and norm(c["e"]) == X \
-                       and (not field or is_this_field(strip(c["e"]))):
+                    if c.get("k") == "Cast" and c.get("ck") in ("functional", "static", "cstyle") and c.get("e") is not None \
+                       and ((norm(c["e"]) == X and (not field or is_this_field(strip(c["e"]))))
+                            or (int_kind(g.ntype(c["e"])) == kind and any(norm(lf) == X and (not field or is_this_field(lf)) for lf in arith_leaves(g, c["e"])))):
+                        # the operand is X or an integer expression of X computed in X's signedness: `std::size_t((X+1)*d + 1)`
                         to = int_kind(c.get("to") if isinstance(c.get("to"), str) else g.ntype(c))
                         if to is not None and to != kind:
+                            convs.append((g, c))
+                    elif kind == "s" and ((c.get("k") == "MCall" and re.search(r"::(at|operator\[\])$", c.get("callee") or "") and len(c.get("a", [])) == 1)
+                                          or (c.get("k") == "OpCall" and c.get("op") == "[]" and len(c.get("a", [])) == 2)):
+                        # a signed expression of X used as the position in a container: converted to the unsigned size_type implicitly
+                        ix = c["a"][-1]
+                        if int_kind(g.ntype(ix)) == "s" and any(norm(lf) == X and (not field or is_this_field(lf)) for lf in arith_leaves(g, ix)):
                             convs.append((g, c))
             if not convs:
                 continue
@@ -4465,6 +4502,14 @@ def rule_attr_value_used(ck, W, pcs, facts):
                     for i_ in (g.d.get("inits") or []):
                         if i_.get("init") is not None and ("@" + fld) in vars_of(i_["init"]):
                             reads += 1
+                if reads == 0:
+                    # the field is a dead copy, but the attribute's value itself is handed on (`_linker.link(_name, it->second)`)
+                    for c_ in create.nodes():
+                        if c_.get("k") in ("MCall", "Call") and (c_.get("callee") or "").startswith("FEAT::") and not (c_.get("callee") or "").startswith("FEAT::String::"):
+                            for a_ in c_.get("a", []):
+                                if strip(a_) is not None and strip(a_).get("k") in ("Member", "Ref", "OpCall", "MCall") and not is_this_field(a_) \
+                                   and (trace_attr(create, a_) or attr_key_of(create, a_, attrs)) == K:
+                                    reads += 1
                 res.setdefault((fld, K), []).append((reads, create, n))
         for (fld, K), lst in sorted(res.items()):
             dead = [x for x in lst if x[0] == 0]
@@ -4714,6 +4759,194 @@ def rule_attr_formula_roundtrip(ck, W, pcs, facts):
             continue
         probs = [p_ for p_, _ in lst if p_]
         ck.ob(rule, key, not probs, probs[0] if probs else "reproduced through constructor and parser binding (%d instantiation(s))" % len(lst), lst[0][1].file, lst[0][1].line)
+
+
+def _assign_parts(n):
+    if n.get("k") == "Assign" and n.get("op") == "=":
+        return n["lhs"], n["rhs"]
+    if n.get("k") == "OpCall" and n.get("op") == "=" and len(n.get("a", [])) == 2:
+        return n["a"][0], n["a"][1]
+    return None, None
+
+
+STORE_CALLS = ("emplace_back", "push_back", "emplace_front", "push_front", "emplace", "insert", "push")
+
+
+def rule_deferred_roles(ck, W, pcs, facts):
+    rule = "E1.deferred-roles"
+    cfs_all = class_functions(facts)
+    res = {}
+
+    def attr_role(f, cfs, arg):
+        """role word of the attribute the argument carries: K, or the element (class) name for K == name"""
+        a = strip(arg)
+        if a is None:
+            return None
+        K = None
+        if is_this_field(a):
+            for g in cfs:
+                if g.body is None:
+                    continue
+                attrs = g.params[3]["n"] if g.name == "create" and len(g.params) >= 4 and g.params[3].get("n") else None
+                for n in g.nodes():
+                    lhs, rhs = _assign_parts(n)
+                    if lhs is None or not is_this_field(lhs) or strip(lhs)["n"] != a["n"]:
+                        continue
+                    k_ = trace_attr(g, rhs) or (attr_key_of(g, rhs, attrs) if attrs else None)
+                    if k_ is None:
+                        return None
+                    if K is not None and K != k_:
+                        return None
+                    K = k_
+        else:
+            attrs = f.params[3]["n"] if f.name == "create" and len(f.params) >= 4 and f.params[3].get("n") else None
+            K = trace_attr(f, a) or (attr_key_of(f, a, attrs) if attrs else None)
+        if K is None:
+            return None
+        return re.sub(r"parser$", "", short(f.cls).lower()) if K == "name" else K.lower()
+
+    def param_components(m, pname):
+        """(field F, component) pairs the helper stores its parameter in; None if a use of the parameter is not understood"""
+        out = []
+        for n in m.nodes():
+            if not (n.get("k") == "MCall" and n.get("n") in STORE_CALLS and n.get("obj") is not None and is_this_field(n["obj"])):
+                continue
+            F = strip(n["obj"])["n"]
+            args = list(n.get("a", []))
+            while len(args) == 1 and strip(args[0]) is not None and strip(args[0]).get("k") in ("Call", "Construct", "TempObj", "InitList") \
+                    and (strip(args[0]).get("k") != "Call" or strip(args[0]).get("callee") in ("std::make_pair", "std::make_tuple")) and len(strip(args[0]).get("a", [])) >= 1 \
+                    and not (len(strip(args[0]).get("a", [])) == 1 and strip(strip(args[0])["a"][0]).get("k") == "Ref"):
+                args = list(strip(args[0])["a"])
+            if len(args) == 1 and strip(args[0]).get("k") in ("Construct", "TempObj") and len(strip(args[0]).get("a", [])) == 1:
+                args = list(strip(args[0])["a"])
+            for pos, a in enumerate(args):
+                a_ = strip(a)
+                if a_ is not None and a_.get("k") == "Ref" and a_.get("n") == pname and a_.get("dk") == "param":
+                    out.append((F, "" if len(args) == 1 else ("first", "second", "third")[min(pos, 2)] if len(args) <= 2 else "#%d" % pos))
+                elif a_ is not None and any(x.get("k") == "Ref" and x.get("n") == pname and x.get("dk") == "param" for x in walk_init(a_)):
+                    return None
+        uses = sum(1 for x in m.nodes() if x.get("k") == "Ref" and x.get("n") == pname and x.get("dk") == "param")
+        if uses != len(out):
+            return None
+        return out
+
+    def is_read(x, F, comp):
+        if comp == "":
+            return x.get("k") in ("MCall", "OpCall", "Index") and root_var(x) == F and (x.get("n") in ("front", "back", "at", "top") or x.get("op") in ("[]", "*") or x.get("k") == "Index")
+        return x.get("k") == "Member" and x.get("n") == comp and x.get("b") is not None and root_var(x["b"]) == F
+
+    def sinks_of(cls, F, comp):
+        """(function, call, parameter position) of the calls that consume the stored component; second value: reads the rule could not follow"""
+        out, lost = [], 0
+        for g in cfs_all.get(cls, []):
+            if g.body is None:
+                continue
+            reads = [x for x in g.nodes() if is_read(x, F, comp)]
+            if not reads:
+                continue
+            holders = set()
+            for v in g.nodes():
+                if v.get("k") == "Var" and v.get("init") is not None and any(is_read(x, F, comp) for x in walk(v["init"])):
+                    if any(x.get("k") in ("MCall", "Call") and x.get("callee", "").startswith("FEAT::") for x in walk(v["init"]) if not is_read(x, F, comp)):
+                        continue          # the read is an argument of a call inside the initialiser: that call is the sink
+                    holders.add(v.get("d"))
+            hit = False
+            for c in g.nodes():
+                if c.get("k") not in ("MCall", "Call") or not (c.get("callee") or "").startswith("FEAT::") or c.get("callee", "").startswith("FEAT::String::"):
+                    continue
+                for pos, a in enumerate(c.get("a", [])):
+                    a_ = strip(a)
+                    if a_ is None:
+                        continue
+                    direct = any(is_read(x, F, comp) for x in walk_init(a)) if a_.get("k") != "Ref" or "_init" in (a if a.get("k") == "Ref" else {}) else False
+                    if direct or (a_.get("k") == "Ref" and a_.get("dk") == "local" and a_.get("d") is not None and a_.get("d") in holders) or (a_.get("k") != "Ref" and is_read(a_, F, comp)):
+                        out.append((g, c, pos))
+                        hit = True
+            if not hit:
+                lost += 1
+        return out, lost
+
+    def sink_role(g, c):
+        t = g.ntype(c) or ""
+        if "*" not in t and "shared_ptr" not in t and "unique_ptr" not in t:
+            return None
+        return strip_targs(t).replace("*", "").replace("const ", "").strip().rsplit("::", 1)[-1].lower()
+
+    for f in reader_functions(facts):
+        if f.cls not in PARSER_CLS:
+            continue
+        cfs = cfs_all.get(f.cls, [f])
+        for n in f.nodes():
+            if n.get("k") != "MCall" or not n.get("ccls") or n["ccls"] in PARSER_CLS or not n["ccls"].startswith("FEAT::") or n["ccls"] not in cfs_all:
+                continue
+            if not re.search(r"mesh_file_reader", n.get("cfile") or ""):
+                continue
+            m = W.resolve(n, f)
+            if m is None or m.body is None or len(n.get("a", [])) != len(m.params):
+                continue
+            strs = [i for i, p_ in enumerate(m.params) if re.search(r"\bString\b", m.type(p_["t"]) or "")]
+            if not strs:
+                continue
+            roles = {i: attr_role(f, cfs, n["a"][i]) for i in strs}
+            for i in strs:
+                key = "%s::%s -> %s(%s)" % (short(f.cls), f.name, m.name, m.params[i].get("n") or "#%d" % i)
+                rec = res.setdefault(key, {"probs": [], "unk": [], "ok": [], "fn": f, "line": n.get("l")})
+                if roles[i] is None:
+                    rec["unk"].append("the attribute the argument `%s` carries is not determined" % render(n["a"][i])[:40])
+                    continue
+                comps = param_components(m, m.params[i].get("n"))
+                found = []
+                lost = 0
+                if comps:
+                    for F, comp in comps:
+                        sk, l_ = sinks_of(m.cls, F, comp)
+                        lost += l_
+                        found += [(F, comp, g, c, pos) for g, c, pos in sk]
+                typed = [(F, comp, g, c, pos, sink_role(g, c)) for F, comp, g, c, pos in found]
+                typed = [t for t in typed if t[5]]
+                others = {j: roles[j] for j in strs if j != i and roles[j]}
+                if typed:
+                    for F, comp, g, c, pos, sr in typed:
+                        what = "%s%s, taken out in %s() and looked up with %s (a %s)" % (F, "." + comp if comp else "", g.name, c.get("n") or c.get("callee"), sr)
+                        if roles[i] in sr:
+                            rec["ok"].append(what)
+                        elif any(r_ in sr for r_ in others.values()):
+                            rec["probs"].append("the argument `%s` carries the %s name (attribute %s), but parameter `%s` of %s() is stored in %s: the %s name goes where "
+                                                "the %s name belongs, the pair is crossed between the call and the helper" % (
+                                                    render(n["a"][i])[:30], roles[i], "name" if roles[i] not in ("chart",) and roles[i] == re.sub(r"parser$", "", short(f.cls).lower()) else roles[i],
+                                                    m.params[i].get("n"), m.name, what, roles[i], [r_ for r_ in others.values() if r_ in sr][0]))
+                        else:
+                            rec["unk"].append("the role of the look-up %s is not related to an attribute of the call" % what)
+                else:
+                    # no typed consumer in reach: the helper's own parameter name is the declared role
+                    pn = (m.params[i].get("n") or "").lower().replace("_", "")
+                    if pn and (roles[i] in pn or pn in roles[i]):
+                        rec["ok"].append("parameter named %s" % m.params[i].get("n"))
+                    elif pn and any(r_ in pn or pn in r_ for r_ in others.values()):
+                        rec["probs"].append("the argument `%s` carries the %s name, but it is passed for the parameter `%s` of %s(), which another argument of the call names" % (
+                            render(n["a"][i])[:30], roles[i], m.params[i].get("n"), m.name))
+                    elif others and not (comps is None):
+                        rec["elim"] = (n, i, strs, m)
+                    elif comps is None or lost:
+                        rec["unk"].append("the use of parameter `%s` in %s() is not followed to a typed look-up" % (m.params[i].get("n"), m.name))
+                    else:
+                        rec["unk"].append("parameter `%s` of %s() has no typed consumer and its name does not tell its role" % (m.params[i].get("n"), m.name))
+    for key, rec in sorted(res.items()):
+        if "elim" in rec and not rec["probs"] and not rec["unk"]:
+            # neither a typed consumer nor a telling name: the role is what the other string parameters of the call leave over
+            n, i, strs, m = rec["elim"]
+            oth = [res.get("%s::%s -> %s(%s)" % (short(rec["fn"].cls), rec["fn"].name, m.name, m.params[j].get("n") or "#%d" % j)) for j in strs if j != i]
+            if oth and all(o is not None and o["ok"] and not o["probs"] and not o["unk"] and "elim" not in o for o in oth):
+                rec["ok"].append("every other name of the call reaches the look-up of its own kind")
+            else:
+                rec["unk"].append("parameter `%s` of %s() has no typed consumer and its name does not tell its role" % (m.params[i].get("n"), m.name))
+    for key, rec in sorted(res.items()):
+        if rec["probs"]:
+            ck.ob(rule, key, False, "; ".join(sorted(set(rec["probs"]))[:2]), rec["fn"].file, rec["line"])
+        elif rec["unk"]:
+            undecided(ck, rule, key, "; ".join(sorted(set(rec["unk"]))[:2]))
+        else:
+            ck.ob(rule, key, True, "; ".join(sorted(set(rec["ok"]))[:2]), rec["fn"].file, rec["line"])
 
 
 def rule_callee_precondition(ck, W, facts):
